@@ -211,6 +211,41 @@ def sessionIterExecutes (p : PreparedInfo) (values : List RawVal) (cfg : StmtCon
   (none :: states.map some).map (fun st =>
     sessionExecute p values cfg stmtProfile sessionDefault conn .paged stmtPageSize st)
 
+/-! ### Statement → PreparedStatement: what a prepared handle inherits
+
+`RawPreparedStatement::into_prepared_statement` (`statement/prepared.rs:86-108`, used by `Connection::prepare` and
+`Session::prepare`) builds the handle with `statement.config.clone()` and `statement.get_validated_page_size()`;
+`CachingSession` does the same on a cache miss and on a hit re-configures the cached handle with
+`make_configured_handle(query.config, page_size)` (`client/caching_session.rs:199-247`).  So everything of the
+statement's configuration that reaches the wire — consistency, serial consistency, timestamp, tracing, execution profile
+handle, page size — is the statement's; `use_cached_result_metadata` is false unless set on the handle (or by the
+`CachingSession`'s own flag). -/
+
+/-- The wire-relevant configuration of a prepared handle. -/
+structure PreparedCfg where
+  cfg : StmtConfig
+  profile : Option ExecProfile
+  pageSize : Int32
+  deriving Repr, DecidableEq
+
+/-- `into_prepared_statement` / `make_configured_handle`. -/
+def intoPrepared (cfg : StmtConfig) (stmtProfile : Option ExecProfile) (pageSize : Int32) : PreparedCfg :=
+  { cfg := cfg, profile := stmtProfile, pageSize := pageSize }
+
+/-- `Session::query_*(statement, values)` with non-empty values (`session.rs:1421-1437`, `do_query_iter` 1539-1546),
+`Session::prepare(statement)` followed by `execute_*`, and `CachingSession::execute_*(statement, values)`: a PREPARE of
+the statement's text (tracing flag: the statement's), then EXECUTE(s) of the prepared handle that inherited the
+statement's configuration.  Result: the requests with their tracing flags; `states` as in `sessionIterExecutes` (`[]`
+for a single request). -/
+def sessionPreparedFromStatement (text : Bytes) (server : PreparedInfo) (useCached : Bool) (values : List RawVal)
+    (cfg : StmtConfig) (stmtProfile : Option ExecProfile) (sessionDefault : ExecProfile) (conn : ConnCtx) (m : Paging)
+    (stmtPageSize : Int32) (states : List Bytes) : List (Req × Bool) :=
+  let h := intoPrepared cfg stmtProfile stmtPageSize
+  (.prepare text, cfg.tracing) ::
+    (none :: states.map some).map (fun st =>
+      (sessionExecute { server with useCachedResultMetadata := useCached } values h.cfg h.profile sessionDefault conn m
+        h.pageSize st, h.cfg.tracing))
+
 /-! ### STARTUP -/
 
 /-- What `open_connection` learned from SUPPORTED (`ProtocolFeatures::parse_from_supported` + the COMPRESSION list). -/
